@@ -1,6 +1,6 @@
 (* C17: statements of the property that are false of the faithful model,
    as existentials closed by the witnesses of SpecProofs.v. *)
-From V Require Import Common.Base C17.WriteSM C17.Spec C17.Proofs C17.DiskProofs C17.SpecProofs C17.IOFail.
+From V Require Import Common.Base C17.WriteSM C17.Spec C17.Proofs C17.DiskProofs C17.SpecProofs C17.IOFail C17.CompileProofs C17.PathModel C17.PathProofs.
 From Coq Require Import String.
 
 (* before d19e8cb: a rebuild that fails removes files *)
@@ -110,4 +110,30 @@ Proof.
   exists w_opts, [(P "/src/a.js", [1]); (P "/src/b.js", [2])], w_oc_ab, [P "/out/a.js"], w_oc_b.
   eexists. eexists. split; [vm_compute; reflexivity|].
   exists (P "/out/a.js"). vm_compute. split; [left; reflexivity|]. intros [H|[]]. discriminate.
+Qed.
+
+(* ---------- the path layer ---------- *)
+(* a template without any parent-directory segment, yet the output leaves the
+   output directory: the entry file is called "...js", whose name minus the
+   extension is ".." (replayed: <cwd>/x.js instead of <cwd>/out/...) *)
+Lemma template_without_dotdot_escapes_refuted_w :
+  exists tmpl outdir outbase entry ext,
+    no_dotdot_seg tmpl = true /\
+    let out := entry_out_path outdir (entry_template tmpl) outbase entry [] [] ext in
+    firstn (List.length (clean_segs outdir)) (clean_segs out) <> clean_segs outdir.
+Proof.
+  exists (P "[name]/x"), (P "/w/out"), (P "/w/src"), (P "/w/src/...js"), (P ".js").
+  split; [vm_compute; reflexivity|]. vm_compute. discriminate.
+Qed.
+
+(* the duplicate-path rule keeps the first of two case variants: no error,
+   and the exact path of the second file is not among the files written *)
+Lemma dedupe_keeps_exact_path_refuted_w :
+  exists outs kept o,
+    dedupe [] outs = (kept, []) /\ In o outs /\ ~ In (o_path o) (map o_path kept).
+Proof.
+  exists [mkOut (P "/out/A.txt") [5] 105 true; mkOut (P "/out/a.txt") [5] 105 true].
+  eexists. exists (mkOut (P "/out/a.txt") [5] 105 true).
+  split; [vm_compute; reflexivity|]. split; [right; left; reflexivity|].
+  vm_compute. intros [H|[]]. discriminate.
 Qed.
